@@ -105,6 +105,17 @@ def h : Handler := fun op j =>
         | _ => .error "!bad-arg:varied"
       let r : Except Err (List Nat × List Nat × List (List Rat)) := perSubstanceVaried (← getNat j "ns") (← getRatList j "base") varied
       pure (showExc (fun (k, sh, rows) => s!"{showNatList k};{showNatList sh};[{",".intercalate (rows.map showRatList)}]") r)
+  | "quotient_rows" => do
+      let rows ← (← getArr j "concs").mapM fun r => do (← asArr r).mapM asRat
+      pure (showExc showRatList (eqQuotientRows rows (← getIntList j "stoich")))
+  | "residual_act" => do
+      -- activity product: the monomial prod c_i ^ e_i with integer exponents `act_exp`
+      let e ← getIntList j "act_exp"
+      pure (showExc showRat (equilibriumResidualWith (fun c => eqQuotient c e) (← getRat j "rc") (← getRatList j "c0")
+        (← getIntList j "stoich") (← getRat j "K")))
+  | "residual_multi" => do
+      let st ← (← getArr j "stoich").mapM fun r => do (← asArr r).mapM asInt
+      pure (showExc showRatList (equilibriumResidualMulti (← getRatList j "rc") (← getRatList j "c0") st (← getRatList j "K")))
   | "root_args" => do
       let x0 : Option (List Rat) ← match j.getObjVal? "x0" with
         | .ok .null => pure none
